@@ -8,6 +8,7 @@ from openaerostruct.utils.vector_algebra import compute_cross, compute_cross_der
 from openaerostruct.utils.vector_algebra import compute_norm, compute_norm_deriv
 
 
+# relative (dimensionless) threshold on den / (|r1| |r2|) = 1 + cos(angle between r1 and r2)
 tol = 1e-10
 
 
@@ -21,7 +22,7 @@ def _compute_finite_vortex(r1, r2):
     num = (1.0 / r1_norm + 1.0 / r2_norm) * r1_x_r2
     den = r1_norm * r2_norm + r1_d_r2
 
-    result = np.divide(num, den * 4 * np.pi, out=np.zeros_like(num), where=np.abs(den) > tol)
+    result = np.divide(num, den * 4 * np.pi, out=np.zeros_like(num), where=np.abs(den) > tol * np.abs(r1_norm * r2_norm))
 
     return result
 
@@ -43,7 +44,7 @@ def _compute_finite_vortex_deriv1(r1, r2, r1_deriv):
     den_deriv = r1_norm_deriv * r2_norm + r1_d_r2_deriv
 
     result = np.divide(
-        num_deriv * den - num * den_deriv, den**2 * 4 * np.pi, out=np.zeros_like(num), where=np.abs(den) > tol
+        num_deriv * den - num * den_deriv, den**2 * 4 * np.pi, out=np.zeros_like(num), where=np.abs(den) > tol * np.abs(r1_norm * r2_norm)
     )
 
     return result
@@ -66,7 +67,7 @@ def _compute_finite_vortex_deriv2(r1, r2, r2_deriv):
     den_deriv = r1_norm * r2_norm_deriv + r1_d_r2_deriv
 
     result = np.divide(
-        num_deriv * den - num * den_deriv, den**2 * 4 * np.pi, out=np.zeros_like(num), where=np.abs(den) > tol
+        num_deriv * den - num * den_deriv, den**2 * 4 * np.pi, out=np.zeros_like(num), where=np.abs(den) > tol * np.abs(r1_norm * r2_norm)
     )
 
     return result
